@@ -153,7 +153,17 @@ def store(ctx):
 def units(ctx):
     rule = "C06.units"
     Hb.ops_frontend(ctx, rule, only_classes=("MeasureHomodyne", "MSgate", "MeasureHeterodyne"))
-    ctx.floor(rule, 2)
+    from .common_none import none_tests
+    f = ctx.tree.func("ops.py", "MeasureHomodyne._apply")
+    none_tests(ctx, rule, f, ("select",), "a post-selection on the quadrature value")
+    for rel, qn in (("backends/gaussianbackend/backend.py", "GaussianBackend.measure_homodyne"),
+                    ("backends/bosonicbackend/backend.py", "BosonicBackend.measure_homodyne"),
+                    ("backends/gaussianbackend/backend.py", "GaussianBackend.measure_heterodyne"),
+                    ("backends/bosonicbackend/backend.py", "BosonicBackend.measure_heterodyne"),
+                    ("backends/fockbackend/circuit.py", "Circuit.measure_homodyne")):
+        g = ctx.tree.func(rel, qn)
+        none_tests(ctx, rule, g, ("select",), "a post-selection on the value")
+    ctx.floor(rule, 5)
 
 
 def _conv_factors(e, f) -> int:
